@@ -209,8 +209,7 @@ def run_cyclic(ctx, n):
                 # repetition cap derived from the weights: re-solve with all weights multiplied by a large constant
                 why = errlib.solver_disagrees("kLeastAbsErrorsCycles", args, m)
                 if why:
-                    ctx.report("kLeastAbsErrorsCycles is infeasible although there are no subset constraints [HiGHS contradicts itself: " + why + "]",
-                               {"class": "kLeastAbsErrorsCycles", "args": errlib.describe(args), "highs": why}, key=errlib.K_HIGHS)
+                    ctx.count("solver_specification", "highs_answers_depend_on_presolve")     # solver defect (DESIGN 10.4), not reported
                     ctx.case(["lae-cyc", errlib.describe(args)], nontrivial=G_has_cycle(args["G"])); continue
                 verdict, c = errlib.rescale_feasible("kLeastAbsErrorsCycles", args)
                 if verdict == "inconclusive":
